@@ -23,7 +23,7 @@ var (
 		{Name: "Whitespace", Pattern: `[ \t]+`},
 	})
 
-	jsonParser = participle.MustBuild[jsonJson](
+	jsonParser = mustBuild[jsonJson](
 		participle.Lexer(jsonLexer),
 		participle.Unquote("String"),
 		participle.Elide("Whitespace", "EOL"),
